@@ -165,6 +165,11 @@ def live_blocks(body):
         t = body.term(b)
         if t["k"] == "switch":
             c = op_const(t["discr"])
+            if c is None:
+                l = op_local(t["discr"])
+                ds = M.def_sites(body, l) if l is not None else []
+                if len(ds) == 1 and ds[0][1] != "term" and ds[0][2]["rv"]["k"] == "use":
+                    c = op_const(ds[0][2]["rv"]["op"])
             if c is not None and "int" in c:
                 tg = None
                 for v, x in t["targets"]:
